@@ -77,6 +77,10 @@ SEEDS = {
  "C17-m4": ("TensorDictDatasetFastGeneration serves batches from a column cache that add_key does not refresh", "the same dataset object keyed again with new values"),
  "C03-m3": ("MTSPEnv._step updates the minmax objective before the last agent's return leg is added", "a row that gets no further step after completing (batch of one / the row finishing last) whose last sub-tour is the longest"),
  "C03-m4": ("ATSPEnv._get_reward rolls the flattened action tensor (no dims=)", "batch > 1 with neighbouring rows whose tours start at different nodes"),
+ "C01-m3": ("CVRPTWEnv._step gathers the service duration with the customer-only index (action - 1)", "hand-supplied / Solomon data with non-zero service durations"),
+ "C01-m4": ("OPEnv._reset builds the length budget from the generator's max_length instead of the instance's", "instance whose max_length is smaller than the generator's value"),
+ "C02-m3": ("process_logits masks infeasible actions after the top-k / top-p filters", "top_k > 0 or 0 < top_p < 1 and no feasible action among the top-k raw logits"),
+ "C02-m4": ("OPEnv.get_action_mask does not offer the depot as the very first action", "OP instance whose budget reaches no customer"),
 }
 for sid in sorted(os.listdir(os.path.join(ROOT, "seeded"))):
     d = os.path.join(ROOT, "seeded", sid)
